@@ -92,6 +92,80 @@ def check_same_parent(case):
     return None
 
 
+REF_KINDS = ("module-port", "external-port", "bundle-member", "nested-bundle-member", "signal", "slice-of-signal",
+             "concat-of-signals")
+
+
+def ref_parent(kind, w):
+    """-> (sliceable parent of width w, resize(w2) changing the width of what it stands for)"""
+    import hdl21 as h
+    if kind == "module-port":
+        c = h.Module(name="RefChild")
+        c.p = h.Port(width=w)
+        m = h.Module(name="RefTop")
+        m.i = c()
+        return m.i.p, lambda w2: setattr(c.p, "width", w2)
+    if kind == "external-port":
+        port = h.Inout(name="p", width=w)
+        E = h.ExternalModule(name="RefExt", port_list=[port], desc="", domain="c03")
+        m = h.Module(name="RefTop")
+        m.i = E()()
+        return m.i.p, lambda w2: setattr(port, "width", w2)
+    if kind in ("bundle-member", "nested-bundle-member"):
+        B = h.Bundle(name="RefB")
+        x = B.add(h.Signal(name="x", width=w))
+        m = h.Module(name="RefTop")
+        if kind == "bundle-member":
+            m.b = B()
+            return m.b.x, lambda w2: setattr(x, "width", w2)
+        O = h.Bundle(name="RefO")
+        O.add(B(), name="inner")
+        m.o = O()
+        return m.o.inner.x, lambda w2: setattr(x, "width", w2)
+    s = h.Signal(name="s", width=w)
+    if kind == "signal":
+        return s, lambda w2: setattr(s, "width", w2)
+    if kind == "slice-of-signal":
+        return s[:], lambda w2: setattr(s, "width", w2)
+    t = h.Signal(name="t", width=1)
+    s.width = w - 1 if w > 1 else 1
+    if w == 1:
+        return h.Concat(s), lambda w2: setattr(s, "width", w2)
+    return h.Concat(s, t), lambda w2: setattr(s, "width", w2 - 1) if w2 > 1 else None
+
+
+def ref_parent_cases(W, rnd, n):
+    """(kind, w, idx) - an index on a fresh parent of each kind; (kind, w, idx1, w2, idx2) - the parent indexed, what it
+    stands for resized to w2, and the same parent object indexed again"""
+    for kind in REF_KINDS:
+        for w in range(1, min(W, 4) + 1):
+            rng = list(range(-w - 1, w + 1))
+            idxs = rng + [slice(a, b, c) for a in [None] + rng for b in [None] + rng for c in (None, 1, -1, 2)]
+            for idx in idxs:
+                yield (kind, w, idx)
+            for _ in range(n):
+                w2 = rnd.randint(1, W)
+                if w2 != w and not (kind == "concat-of-signals" and 1 in (w, w2)):
+                    yield (kind, w, rnd.choice(idxs), w2, rnd.choice(idxs + list(range(-w2 - 1, w2 + 1))))
+
+
+def check_ref_parent(case):
+    kind, w, idx = case[:3]
+    parent, resize = ref_parent(kind, w)
+    r = check_index(w, idx, parent=parent)
+    if r is not None:
+        return (f"hdl21.slice:_slice_inner/{kind}/{r[0]}", r[1].replace("Signal(", f"<{kind}>("), {"ref_parent": repr(case)})
+    if len(case) > 3:
+        w2, idx2 = case[3:]
+        resize(w2)
+        r = check_index(w2, idx2, parent=parent)
+        if r is not None:
+            return (f"hdl21.slice:_slice_inner/{kind}/resized.{r[0]}",
+                    f"after [{idx!r}] was read at width {w} and the {kind} resized to {w2}: " +
+                    r[1].replace("Signal(", f"<{kind}>("), {"ref_parent": repr(case)})
+    return None
+
+
 def replay_slice_inner(con, ob):
     m = ob.model
     w = solve.model_value(m, c_width.W(z3.Int("parent")))
@@ -258,7 +332,9 @@ def run(ctx):
     ctx.functions[-1]["function"] += " [parents: Slice, Concat, PortRef, BundleRef]"
     # width(): dispatch over the connectable kinds
     ctx.verify(c_width.verify_engine(), c_width.VERIFY_WIDTH, min_obligations={c_width.VERIFY_WIDTH[0].key: 30})
-    # Slice.top/bot/step/width and the cached SliceInner
+    # ref_width: the present width of the referent, whatever kind of instance the reference goes through
+    ctx.verify(c_width.ref_width_engine(), c_width.VERIFY_REF_WIDTH, min_obligations={c_width.VERIFY_REF_WIDTH[0].key: 6})
+    # Slice.top/bot/step/width (resolved anew on each read)
     from contracts import c_export
     ctx.verify(c_export.engine(), [c for c in c_export.VERIFY if c.key.startswith("hdl21.slice:")])
     # the positions a slice selects in its parent, in order (used by the resolver to peel strided / reversed slices)
@@ -289,6 +365,13 @@ def run(ctx):
         rule="two indexings of ONE signal object in sequence (every ordered pair of ints / unit-step slices for widths 1-2, "
              "seeded random pairs for widths 3-W): each must mean what it means on a fresh signal",
         bound=f"widths<={W}, 2 indexings", key_of=repr)
+    ctx.run_bounded(
+        "reference-parents", ref_parent_cases(W, random.Random(ctx.seed + 9), 200 if thorough else 40), check_ref_parent,
+        rule="the run-time form of the _slice_inner contract on parents of 7 kinds (port reference through a module / an "
+             "external module instance, bundle member and nested bundle member references, signal, full slice, "
+             "concatenation) of widths 1-4, every int index and slice with bounds in [-w-1, w] and steps None, +-1, 2; "
+             "plus histories: indexed, the referent resized, the same parent object indexed again (seeded)",
+        bound="widths<=4 exhaustive; resize histories sampled", key_of=repr)
     cases = itertools.chain(small_nested(), nested_cases(rnd, 20000 if thorough else 3000))
     ctx.run_bounded(
         "nested-resolution", cases,
@@ -301,6 +384,10 @@ def run(ctx):
 
 def replay(payload):
     inp = (payload.get("replay") or {}).get("input") or payload.get("input") or {}
+    if "ref_parent" in inp:
+        r = check_ref_parent(eval(inp["ref_parent"]))
+        print("replay:", r)
+        return 1 if r else 0
     if "same_parent" in inp:
         r = check_same_parent(eval(inp["same_parent"]))
         print("replay:", r)
